@@ -313,6 +313,19 @@ def r3_verbatim(ctx, handlers):
         calls = [c for c in walk_local(f.node) if isinstance(c, ast.Call) and F.is_name(c.func, clsname)]
         expect = argname or (f.params[2] if fname != '_compute_metacomment_token' else f.params[1])
         ok = len(calls) == 1 and calls[0].args and F.is_name(calls[0].args[0], expect)
+        if not ok and fname == 'run' and len(calls) == 1:
+            # the cell of the column loop under whatever name it reaches the constructor (helpers of the row loop inlined)
+            lps = [n_ for n_ in walk_local(f.node) if isinstance(n_, ast.For) and 'enumerate(' in src(n_.iter)
+                   and isinstance(n_.target, ast.Tuple) and len(n_.target.elts) == 2 and isinstance(n_.target.elts[1], ast.Name)]
+            if len(lps) == 1:
+                cell = lps[0].target.elts[1].id
+                got = set()
+                for sp_ in symex.sym_paths(lps[0].body, limit=20000, fi=f):
+                    for e_ in sp_.events:
+                        for c_ in ([x for x in ast.walk(e_.expr) if isinstance(x, ast.Call)] if isinstance(e_.expr, ast.AST) else []):
+                            if F.is_name(c_.func, clsname) and c_.args:
+                                got.add(src(c_.args[0]))
+                ok = got == {cell}
         ctx.check(ok, 'R3', f.loc, f.qualname, f'importer-token-verbatim:{clsname}', f'{clsname} receives the raw cell text',
                   f'{clsname} receives `{src(calls[0].args[0]) if calls and calls[0].args else None}`')
     c04.r6_chords(ctx)
